@@ -12,7 +12,11 @@ import c16_respframer as rf
 
 LEVEL = "exploration"
 NAME = "c16_httpresp"
+BUILDS = [(NAME, "plain"), (NAME, "tsan"), (NAME, "asan")]   # quick: plain + tsan; thorough: + asan
 
+# unparsable requests whose defect is the message-length information (found by the framing step,
+# before the request reaches the request parser)
+LENGTH_INFO_MAL = ("badcl", "hugecl", "badte", "conflictcl")
 BODY_KINDS = ("w", "big", "put", "patch", "del", "create")
 EXPECT = {  # kind -> method -> status
     "w": {"GET": 200, "HEAD": 200}, "big": {"GET": 200, "HEAD": 200},
@@ -291,6 +295,8 @@ def analyze_conn(rec):
         outcome = "misordered"
     if eof:
         ob("connections_closed_by_server")
+        if rec["eof"] == "rst":
+            ob("connections_ended_by_rst")
         if tail is not None and tail_bytes > 0:
             outcome = "truncated"
             tq = None
@@ -315,10 +321,11 @@ def analyze_conn(rec):
             if before:
                 outcome = "close-overtook"
                 same = all(flight(q.i) == flight(trig.i) for q in before)
-                if pipe and same and trig.kind == "malformed" and trig.i not in answered:
-                    viol("C16:pipeline:silent-close-overtakes-earlier-responses",
-                         "the response-less close caused by unparsable request %d (malformed:%s) was executed before the responses of earlier pipelined requests %s were written"
-                         % (trig.i, trig.mal, [q.i for q in before]),
+                if pipe and same and trig.kind == "malformed" and trig.mal in LENGTH_INFO_MAL:
+                    viol("C16:pipeline:framing-rejection-overtakes-earlier-responses",
+                         "the rejection of request %d (malformed:%s: invalid/oversized length information, %s) was carried out before the responses of earlier pipelined requests %s were written"
+                         % (trig.i, trig.mal, "answered %s + close" % answered[trig.i].status if trig.i in answered else "closed without a response",
+                            [q.i for q in before]),
                          dict(missing=[q.i for q in before], trigger=trig.i, wire_order=seq,
                               handler_ms=[q.get("ms") for q in rec["reqs"]]))
                 elif pipe and same:
@@ -427,22 +434,22 @@ def _plan(tier, seed):
     """list of (flavor, job)"""
     jobs = []
 
-    def add(flavor, n_proc, per, base, slow_procs=0, silence=8000, closewait=2500, settle=150, bigmax=0):
+    def add(flavor, n_proc, per, base, slow_procs=0, slow_per=3, silence=8000, closewait=2500, settle=150, bigmax=0):
         caps = [0, 0, 1460, 0, 700, 0, 8192, 0, 3000, 0, 0, 257]
         for i in range(n_proc):
             jobs.append((flavor, dict(**{"from": base + i * per}, count=per, defh=i % 2, sendcap=caps[i % len(caps)],
                                       profile="mix", silence=silence, closewait=closewait, settle=settle, bigmax=bigmax)))
         for i in range(slow_procs):
-            jobs.append((flavor, dict(**{"from": base + 100000 + i * per}, count=per, defh=i % 2, sendcap=0, profile="slow",
-                                      silence=silence * 2, closewait=closewait, settle=settle,
+            jobs.append((flavor, dict(**{"from": base + 100000 + i * slow_per}, count=slow_per, defh=i % 2, sendcap=0,
+                                      profile="slow", silence=silence * 2, closewait=closewait, settle=settle,
                                       bigmax=bigmax)))
     if tier == "thorough":
-        add("plain", 16, 60, 0, slow_procs=6, bigmax=0)
-        add("asan", 16, 25, 10000, slow_procs=2, silence=15000, closewait=5000, settle=300)
-        add("tsan", 16, 25, 20000, slow_procs=2, silence=20000, closewait=6000, settle=400)
+        add("plain", 16, 60, 0, slow_procs=6, slow_per=12)
+        add("asan", 16, 25, 10000, slow_procs=2, slow_per=10, silence=15000, closewait=5000, settle=300)
+        add("tsan", 16, 25, 20000, slow_procs=2, slow_per=10, silence=20000, closewait=6000, settle=400)
     else:
-        add("plain", 10, 3, 0, slow_procs=1)
-        add("tsan", 5, 2, 20000, slow_procs=0, silence=20000, closewait=6000, settle=400)
+        add("plain", 10, 7, 0, slow_procs=2, slow_per=3)
+        add("tsan", 5, 4, 20000, slow_procs=0, silence=20000, closewait=6000, settle=400)
     return jobs
 
 
@@ -533,7 +540,7 @@ def run(ctx):
 
     ctx.rule = ("connection = seeded (sequential | pipelined depth 2-16, 1-16 requests over routes w/echo/put/patch/del/create/big/"
                 "throw(std|int)/204/304/404/405/OPTIONS/OPTIONS*/HEAD variants, optional malformed request at one position "
-                "(13 kinds), optional Connection: close (4 spellings) on the last request, normal or slow reader, server send() "
+                "(15 kinds), optional Connection: close (5 spellings) on the last request, normal or slow reader, server send() "
                 "capped or not, default handler or built-in 404); 1-32 connections run concurrently per scenario. distinct = hash of "
                 "(mode, depth, #requests, set of kind-method, malformed kind, close?, slow?, capped?, default handler?, outcome class)")
     ctx.assumptions = [
